@@ -383,7 +383,42 @@ def check_otsu(ctx: Ctx):
             okc = False
     centers = U(bc[0].targets[0]) if bc else None
     ctx.decide(okc, "THRESH", site + ":centres", (fi, bc[0]) if bc else fi, "bin centres are the midpoints of consecutive edges (affine points)", "bin centres are not (edges[1:] + edges[:-1])/2")
-    rets = [n.stmt for n in fv.return_nodes()]
+    all_rets = [n.stmt for n in fv.return_nodes()]
+    # returns inside an exception handler are the fallback for data whose range the histogram cannot resolve (judged below)
+    in_handler = {id(x) for hnd in ast.walk(fi.node) if isinstance(hnd, ast.ExceptHandler) for x in ast.walk(hnd) if isinstance(x, ast.Return)}
+    rets = [r for r in all_rets if id(r) not in in_handler]
+    fallbacks = [r for r in all_rets if id(r) in in_handler]
+    for r in fallbacks:
+        okf = False
+        detail = U(r.value)[:70] if r.value is not None else "None"
+        tries = [t for t in ast.walk(fi.node) if isinstance(t, ast.Try) and any(x is r for hnd in t.handlers for x in ast.walk(hnd))]
+        guarded_hist = bool(tries) and any(isinstance(c, ast.Call) and (fv.callee(c) or U(c.func)).endswith("histogram") for b_ in tries[0].body for c in ast.walk(b_)) \
+            and all(hnd.type is not None and U(hnd.type) == "ValueError" for hnd in tries[0].handlers)
+        if r.value is not None and guarded_hist:
+            v = r.value
+            if isinstance(v, ast.Call) and U(v.func) == "float" and len(v.args) == 1:
+                v = v.args[0]
+            data_p = fi.params[0]
+
+            class _Red(ast.NodeTransformer):
+                def visit_Call(self, n):
+                    nm = (U(n.func)).split(".")[-1]
+                    arg = n.args[0] if n.args else (n.func.value if isinstance(n.func, ast.Attribute) else None)
+                    if nm in ("min", "amin", "max", "amax", "mean") and arg is not None and U(arg) in (data_p, f"{data_p}.flat") and len(n.args) <= 1 and not n.keywords:
+                        return ast.Name(id={"min": "MIN", "amin": "MIN", "max": "MAX", "amax": "MAX", "mean": "MEAN"}[nm], ctx=ast.Load())
+                    return self.generic_visit(n)
+
+            import copy as _copy
+
+            try:
+                e = Converter().conv(_Red().visit(_copy.deepcopy(fv.expand(v, r, allow_mutated=True))))
+                mid = (Expr.atom("MIN") + Expr.atom("MAX")) * Expr.const(2).inverse()
+                okf = e == mid or e == Expr.atom("MEAN") or e == Expr.atom("MIN") or e == Expr.atom("MAX")
+            except NotAlgebraic:
+                okf = False
+        ctx.decide(okf, "THRESH", site + ":fallback", (fi, r), "when the histogram cannot resolve the data range (ValueError) the result is a value of the data range itself (mid-range / mean): covariant under affine maps",
+                   f"the fallback `{detail}` taken when the histogram fails is not a point of the data range (mid-range, mean, min or max of the data) reached only through the histogram's ValueError: "
+                   "the threshold no longer follows an affine change of the intensities")
     okr = False
     if len(rets) == 1 and rets[0].value is not None:
         r = fv.expand(rets[0].value, rets[0], stop=tuple(env) + ((centers,) if centers else ()), allow_mutated=True)
